@@ -16,9 +16,11 @@ const modPath = "github.com/snapcore/snapd"
 
 // excludedPkgs cannot be type-checked in this sandbox (cgo headers missing).
 var excludedPkgs = map[string]string{
-	"cmd/snap-seccomp":   "needs <seccomp.h> (libseccomp-dev not installed)",
-	"cmd/snap-update-ns": "needs <sys/capability.h> via cgo bootstrap (libcap-dev not installed)",
+	"cmd/snap-seccomp": "needs <seccomp.h> (libseccomp-dev not installed)",
 }
+
+// cmd/snap-update-ns needs <sys/capability.h> for its cgo bootstrap; a stand-in header under
+// checker/cstub (types only) is put on cgo's include path so that the Go side type-checks.
 
 // Prog is the resolved program the rules are evaluated on.
 type Prog struct {
@@ -50,7 +52,7 @@ func Load(repo, tier string, roots []string, tags, goarch string) (*Prog, error)
 	if whole {
 		mode |= packages.NeedDeps
 	}
-	env := append(os.Environ(), "GOFLAGS=-mod=mod", "GOPROXY=off", "GOSUMDB=off", "GOTOOLCHAIN=local", "GOWORK=off")
+	env := append(os.Environ(), "GOFLAGS=-mod=mod", "GOPROXY=off", "GOSUMDB=off", "GOTOOLCHAIN=local", "GOWORK=off", "CGO_CFLAGS=-I"+cstubDir()+" -w")
 	if goarch != "" {
 		env = append(env, "GOARCH="+goarch)
 	}
